@@ -230,10 +230,25 @@ func main() {
 		dump     = flag.String("dump", "", "debug: dump descriptors of the function with this key")
 		noself   = flag.Bool("noselftest", false, "skip engine self-tests (debug only)")
 		manifest = flag.Bool("manifest", false, "write <verif>/MANIFEST.json from the registry")
+		describe = flag.Bool("describe", false, "print what each registered property decides / does not decide (JSON)")
 	)
 	flag.Parse()
 	if *manifest {
 		writeManifest(*verif)
+		return
+	}
+	if *describe {
+		var ids []string
+		for id := range registry {
+			ids = append(ids, id)
+		}
+		sort.Strings(ids)
+		var out []map[string]string
+		for _, id := range ids {
+			out = append(out, map[string]string{"id": id, "decides": registry[id].Decides, "not_decided": registry[id].NotDecided})
+		}
+		b, _ := json.MarshalIndent(out, "", " ")
+		fmt.Println(string(b))
 		return
 	}
 	if *list {
@@ -275,11 +290,7 @@ func main() {
 	}
 	full := false
 	if *tier == "thorough" {
-		for _, id := range ids {
-			if registry[id].NeedFull {
-				full = true
-			}
-		}
+		full = true // whole-program load and VTA resolution of dynamic call sites for the who-may-call rules
 	}
 	prog, err := LoadProg(*repo, modPath, full)
 	if err != nil {
@@ -427,7 +438,7 @@ func runProperty(prog *Prog, pr *Property, tier string, seed int, evPath, verif 
 	}
 	cg := "static callees + repository method sets (packages.LoadSyntax, go/ssa)"
 	if full {
-		cg = "whole program (packages.LoadAllSyntax, go/ssa)"
+		cg = fmt.Sprintf("whole program (packages.LoadAllSyntax, go/ssa) + VTA over CHA: %d dynamic call sites of the tree resolved and fed to the who-may-call rules", len(prog.Dyn))
 	}
 	ev := map[string]any{
 		"property_id": pr.ID,
